@@ -160,7 +160,7 @@ BumpVer(S, kind, key) == [S EXCEPT !.vers = Put(@, <<kind, key>>, Ver(S, kind, k
 \* watcher mappings (pkg/controller/v2/*/watcher.go)
 WakeTx(S, i)       == Wake(S, "tx", {i})
 WakeProp(S, id, r) == Wake(Wake(S, "prop", {id}), "tx", {r.i})
-WakeCfg(S, t, r)   == Wake(Wake(Wake(S, "cfg", {t}), "mast", {t}), "prop", {PID(t, r.index), PID(t, r.applied)})
+WakeCfg(S, t, r)   == Wake(Wake(Wake(S, "cfg", {t}), "mast", {t}), "prop", {PID(t, r.index), PID(t, r.applied), PID(t, r.committed)})
 WakeRel(S, id, t)  == Wake(Wake(S, "conn", {id}), "mast", {t})
 
 GoCont == [k |-> "cont", then |-> << >>]
@@ -275,9 +275,9 @@ TxInitPlans(S, tx) ==
                 IF tx.kind = "change"
                 THEN TxCreatePlans(S, tx, DOMAIN tx.ch, "change", 0, LAMBDA t : tx.ch[t])         \* TI-create
                 ELSE IF tx.rb < 1 \/ tx.rb > Len(S.txs)
-                     THEN {<< WTx(S, tx.i, FailTx(tx, "NOT_FOUND", "init")) >>}                   \* TI-rb-missing
+                     THEN {<< WTx(S, tx.i, FailTx(tx, "NOT_FOUND", "init")), Ret("tx", tx.i + 1) >>}                   \* TI-rb-missing
                 ELSE IF S.txs[tx.rb].kind = "rollback"
-                     THEN {<< WTx(S, tx.i, FailTx(tx, "FORBIDDEN", "init")) >>}                   \* TI-rb-of-rb
+                     THEN {<< WTx(S, tx.i, FailTx(tx, "FORBIDDEN", "init")), Ret("tx", tx.i + 1) >>}                   \* TI-rb-of-rb
                 ELSE TxCreatePlans(S, tx, DOMAIN S.txs[tx.rb].ch, "rollback", tx.rb, LAMBDA t : EmptyFn)
             ELSE IF ~AllPropsExist(S, tx) THEN {<< >>}
             ELSE IF \A id \in tx.props : S.props[id].ph.init = "D"
@@ -440,7 +440,9 @@ PropAbortPlans(S, id, p) ==
                      aborted == WProp(S, id, [p EXCEPT !.ph.abt = "D"])
                      \* an abort that has to wait for its predecessor to be applied re-queues it
                      waitprev == IF p.prev # 0 /\ cfg.applied # p.prev THEN << Ret("prop", PID(p.t, p.prev)) >> ELSE << >>
-                 IN IF cfg.committed = p.prev /\ cfg.applied = p.prev
+                 IN IF cfg.committed >= p.i /\ cfg.applied >= p.i
+                    THEN {<< aborted >>}                                                                   \* PAb-0
+                    ELSE IF cfg.committed = p.prev /\ cfg.applied = p.prev
                     THEN {<< WCfgS(S, p.t, [cfg EXCEPT !.committed = p.i, !.applied = p.i], TRUE), aborted >>}  \* PAb-1
                     ELSE IF cfg.committed = p.prev
                     THEN {<< WCfgS(S, p.t, [cfg EXCEPT !.committed = p.i], TRUE) >>
@@ -487,7 +489,7 @@ PropApplyPlans(S, id, p) ==
                           sUpd == [path \in {x \in sentp : ~upd[x].d} |-> upd[path].v]
                           sDel == {x \in sentp : upd[x].d}
                           okCfg == [cfg EXCEPT !.applied = p.i,
-                                               !.avalues = VO!StoreValues(cfg.avalues, VO!Merge(cfg.avalues, upd), FALSE)]
+                                               !.avalues = VO!StoreValues(cfg.avalues, VO!ApplyAll(cfg.avalues, upd), TRUE)]
                       IN {
                            << DevSet(p.t, "prop", id, cfg.master, cfg.term, sUpd, sDel,
                                     \* PAp-ok
@@ -500,7 +502,7 @@ PropApplyPlans(S, id, p) ==
                                           WProp(S, id, [p EXCEPT !.ph.app = "F", !.fail = class, !.term = cfg.term]) >>],
                                     \* PAp-transient
                                     << RetErr >>) >> }                                             \* PAp-send
-      [] p.ph.app = "D" -> IF p.next # 0 THEN {<< Ret("prop", PID(p.t, p.next)) >>} ELSE {<< >>}    \* PAp'
+      [] p.ph.app \in {"D", "F"} -> IF p.next # 0 THEN {<< Ret("prop", PID(p.t, p.next)) >>} ELSE {<< >>}    \* PAp'
       [] OTHER -> {<< >>}
 
 PropPlans(S, id) ==
